@@ -64,6 +64,20 @@ CLAIMED = {
         "The measured delay under a schedule is not decided (timing). The equality case ack_at == now of the pacing test was triaged as harmless (findings/c12_pacing_demo.py) and is not demanded.",
         "DESIGN.md#c12",
     ),
+    "C02": (
+        "other",
+        "structural checks of every AEAD call site (Python AST) and of AEAD_encrypt/AEAD_decrypt (clang AST: argument order, nonce loop evaluated for all iterations, tag position, verification result checked); effect analysis of receive_datagram against CFG dominance by decrypt_packet with an allow-list of five reasoned categories; gating of Retry / Version Negotiation effects; constant folding of salts, keys, nonces and HKDF labels against an RFC 9001/9369 reference table; sibling comparison of the v1 / v2 label sets; def-use of the key-update chain",
+        "Decides, on all paths, that every byte of a packet is covered by the AEAD (header as associated data, payload as its complement, full 64-bit packet number in the nonce, tag checked), that receive_datagram has no state effect before successful decryption other than the five allow-listed kinds, that Retry is acted upon only after the integrity-tag comparison, and that all constants and labels equal the RFCs for both versions and all three cipher suites. These are necessary conditions of 'only authentic packets are accepted'.",
+        "Bit-exact interoperability and packet-number expansion are declined (numeric); OpenSSL's AEAD is the trusted base; the allow-list of pre-authentication effects is part of the rule (each entry has its reason in rules/c02.py:ALLOW).",
+        "DESIGN.md#c02",
+    ),
+    "C13": (
+        "proof",
+        "ownership-chain analysis (who-may-write over the builder and connection classes) for the size clause; guard extraction and field-dependency closure for the padding flag and pad target; CFG dominance of the budget installation over every emitting call; linear normal form of the budget expression; writer enumeration for is_validated",
+        "R1 (no datagram exceeds the configured size) is proved from the ownership chain datagrams_to_send -> flush() -> _buffer.data -> Buffer(max_datagram_size) together with C04's object invariant. R2/R3 decide the plumbing of the padding flag, of the pad target and of the 3x budget on every emitting path (including the closing branch).",
+        "Level reported as 'other' while the two R2.floor findings (pad target lowered below 1200 by the congestion / amplification budget) are open; the numeric 3x inequality over a schedule is decided only through the plumbing.",
+        "DESIGN.md#c13",
+    ),
 }
 
 NOT_APPLICABLE = {
